@@ -159,6 +159,7 @@ def generate(rng, tier):
         for name, rx, cv in rng.sample(NEAR, rng.choice([0, 0, 1, 2, 3])):
             ops.append("sf:%s:%s:%s" % (hx(name), hx(rx), cv))
             mine.append(name.lstrip(":"))
+        later = []
         for i in range(rng.randrange(1, 7)):
             kind = rng.random()
             mask = rng.choice([2, 3, 4, 6, 7, 8, 511, 256, 1])
@@ -172,12 +173,22 @@ def generate(rng, tier):
                     rule += rng.choice(["/", "-"]) + "<z%d:%s>" % (i, rng.choice(mine))
                 ops.append("sr:%s:%d:%d" % (hx(rule), i + 1, mask))
                 rules.append(rule)
-                if rng.random() < 0.25:     # re-registration of the same pattern for further methods
+                r2 = rng.random()
+                if r2 < 0.15:     # re-registration of the same pattern for further methods, at once
                     ops.append("sr:%s:%d:%d" % (hx(rule), i + 20, rng.choice([4, 8, 16])))
+                elif r2 < 0.45 and "<" in rule:
+                    # ... or later, after a more general rule that overlaps it was registered for the same
+                    # methods: the pattern keeps the place of its first registration
+                    shadow = re.sub(r"<(\w+)(:[^>]+)?>", lambda m: "<%s>" % m.group(1), rule)
+                    if shadow != rule:
+                        ops.append("sr:%s:%d:%d" % (hx(shadow), i + 30, mask))
+                        rules.append(shadow)
+                    later.append("sr:%s:%d:%d" % (hx(rule), i + 20, rng.choice([4, 8, 16, 256])))
             else:
                 raw = rng.choice(RAWS)
                 ops.append("sx:%s:%d:%d" % (hx(raw), i + 1, mask))
                 rules.append(raw)
+        ops.extend(later)
         if rng.random() < 0.3:
             ops.append("sd:%d:%d" % (50, rng.choice([2, 7, 511])))
         for _ in range(rng.randrange(3, 9)):
